@@ -546,7 +546,7 @@ class Gen:
     if k < 0.38:
       return ("G", self.name("tuple"), [sub()])
     if k < 0.45:
-      return ("G", ("t", 5), [("Z",) if edge and r.random() < 0.2 else ("A",), sub()])
+      return ("G", ("t", 5), [("A",), sub()])
     if k < 0.55:
       n = r.choice([0, 1, 1, 2, 3])
       return ("Tu", self.name("tuple"), [sub() for _ in range(n)])
